@@ -30,6 +30,9 @@ pub struct Case {
     /// after a successful conversion, convert a second inequality of the same instance as well
     #[serde(default)]
     pub second: bool,
+    /// leave this variable of f undefined (rejection case: unknown variable id); 0 = none
+    #[serde(default)]
+    pub undefined_var: u64,
 }
 
 const CID: u64 = 3;
@@ -95,6 +98,9 @@ fn build(case: &Case) -> InstRep {
     // or on the list length (layout 1: id nv + 2 exists) collide with an existing variable.
     let mut fvars = vec![];
     for (id, kind, lo, up) in &case.vars {
+        if *id == case.undefined_var {
+            continue;
+        }
         // continuous, or (for even parameters) semi-continuous: neither can be matched by an integer slack
         let k = if *id == case.continuous_var { if case.param % 2 == 1 { KIND_CONTINUOUS } else { 5 } } else { *kind };
         let b = if *kind == KIND_BINARY && *id % 2 == 1 { None } else { Some((*lo as f64, *up as f64)) };
@@ -251,6 +257,8 @@ pub fn check_case(l: &mut Local, case: &Case) {
         Some("unknown-constraint-id")
     } else if case.equality != LE_ZERO {
         Some("not-an-inequality")
+    } else if case.undefined_var != 0 && f_exact.vars().contains(&case.undefined_var) {
+        Some("undefined-variable-id")
     } else if case.continuous_var != 0 && f_exact.vars().contains(&case.continuous_var) {
         Some("continuous-variable")
     } else {
@@ -268,8 +276,8 @@ pub fn check_case(l: &mut Local, case: &Case) {
         }
         return;
     }
-    if case.continuous_var != 0 {
-        return; // continuous variable not occurring in f: outside the alphabet
+    if case.continuous_var != 0 || case.undefined_var != 0 {
+        return; // the marked variable does not occur in f: outside the alphabet
     }
     // For unnormalised ("-split") messages interval analysis over the listed terms is legitimately
     // weaker than over the merged polynomial: only the feasible-set and structural oracles apply.
@@ -563,6 +571,7 @@ pub fn run(ctx: &Ctx) -> Finish {
                             constraint_id: CID,
                             continuous_var: 0,
                             second: false,
+                            undefined_var: 0,
                         };
                         if method == "convert" && (bi + i) % 4 == 1 {
                             let mut c2 = case.clone();
@@ -594,6 +603,9 @@ pub fn run(ctx: &Ctx) -> Finish {
                                 let mut c = case.clone();
                                 c.continuous_var = v.0;
                                 check_case(l, &c);
+                                let mut c = case.clone();
+                                c.undefined_var = v.0;
+                                check_case(l, &c);
                             }
                         }
                     }
@@ -605,7 +617,7 @@ pub fn run(ctx: &Ctx) -> Finish {
     ctx.assume("'Always satisfied => moved' and 'never satisfiable => infeasibility error' are asserted in the converse direction only for linear functions, where interval analysis over a box is exact.");
     Finish {
         level: "model_checking",
-        rule: "every inequality f(x) <= 0 with f = up to 3 distinct monomials of degree <= 2 (coefficients from the rational alphabet) + constant over 1..3 integer/binary variables, every assignment of the 5 boxes to the variables, both methods x 3 parameter values; brute force over EVERY lattice point of the box and EVERY slack value: feasible set in x unchanged, slack variable integer/fresh/[0,S], same constraint id, returned b = slack coefficient; moved => unchanged and always satisfied; InfeasibleDetected => no lattice point satisfies; rejections (unknown id, equality, continuous variable, range above limit) leave the instance unchanged".into(),
+        rule: "every inequality f(x) <= 0 with f = up to 3 distinct monomials of degree <= 2 (coefficients from the rational alphabet) + constant over 1..3 integer/binary variables, every assignment of the 5 boxes to the variables, both methods x 3 parameter values; brute force over EVERY lattice point of the box and EVERY slack value: feasible set in x unchanged, slack variable integer/fresh/[0,S], same constraint id, returned b = slack coefficient; moved => unchanged and always satisfied; InfeasibleDetected => no lattice point satisfies; rejections (unknown constraint id, a variable of f that is not defined, equality, continuous variable, range above limit) leave the instance unchanged".into(),
         bounds: json!({"coefficients": "±1,±2,3,±1/2,1/3,-2/3,3/4", "constants": "-3,-1,-1/2,0,1/2,2", "boxes": "{0,1}bin,[0,1],[0,2],[-1,2],[1,3]", "vars_max": 3, "terms_max": ctx.tier.pick(2,3), "max_integer_range": convert_params, "slack_upper_bound": slack_params}),
         exhaustive: t,
     }
